@@ -188,6 +188,12 @@ def go_test(pkg, overlays, run, env=None, timeout=1200, race=False, tags='verif'
 
 # ---------------------------------------------------------------- known findings, reporting
 
+# evidence and replays of runs against a scratch tree (VERIF_REPO set, mutation testing) do not overwrite the committed ones
+OUTROOT = VERIF if REPO == '/repo' else os.path.join(BUILD, 'seedout')
+for _d in ('evidence', 'replays'):
+    os.makedirs(os.path.join(OUTROOT, _d), exist_ok=True)
+
+
 def known_findings():
     p = os.path.join(VERIF, 'known-findings.json')
     if not os.path.exists(p):
@@ -261,7 +267,7 @@ class Check:
             if sig in seen:
                 continue
             seen.add(sig)
-            rp = os.path.join(VERIF, 'replays', '%s-%s-%d.json' % (self.prop, self.tier, len(seen)))
+            rp = os.path.join(OUTROOT, 'replays', '%s-%s-%d.json' % (self.prop, self.tier, len(seen)))
             with open(rp, 'w') as f:
                 json.dump({'property': self.prop, 'signature': sig, 'what': what, 'seed': self.seed, 'replay': replay}, f, indent=1, default=str)
             print('VIOLATION property=%s replay=%s' % (self.prop, rp))
@@ -269,7 +275,7 @@ class Check:
             nviol += 1
         if not self.violations and self.broken:
             # proof obligation / correspondence broken and the search found no failing input
-            rp = os.path.join(VERIF, 'replays', '%s-%s-broken.json' % (self.prop, self.tier))
+            rp = os.path.join(OUTROOT, 'replays', '%s-%s-broken.json' % (self.prop, self.tier))
             with open(rp, 'w') as f:
                 json.dump({'property': self.prop, 'no_failing_input_found': True, 'seed': self.seed,
                            'broken': [{'kind': k, 'name': n, 'detail': d} for k, n, d in self.broken]}, f, indent=1)
@@ -297,7 +303,7 @@ class Check:
             cov.update(extra_cov)
         ev = {'property_id': self.prop, 'tier': self.tier, 'seed': self.seed, 'level': level,
               'coverage': cov, 'assumptions': self.assumptions, 'wall_s': round(wall, 2), 'violations': nviol}
-        with open(os.path.join(VERIF, 'evidence', '%s.json' % self.prop), 'w') as f:
+        with open(os.path.join(OUTROOT, 'evidence', '%s.json' % self.prop), 'w') as f:
             json.dump(ev, f, indent=1, default=str)
         log('%s %s: obligations %d/%d, evaluations %d, violations %d, known %d, %.1fs' %
             (self.prop, self.tier, dis, ob, evaluations, nviol, len(self.known_hits), wall))
